@@ -135,7 +135,8 @@ Lemma merge_table_ok cur base view r : opt_ok cur -> opt_ok view -> merge_table 
 Proof.
   intros Hc Hv. unfold merge_table.
   destruct base as [b|], view as [v|].
-  - destruct cur as [c|]; [|discriminate].
+  - destruct (table_unchanged b v); [intros H; injection H as <-; exact Hc|].
+    destruct cur as [c|]; [|discriminate].
     destruct (negb (Nat.eqb (length (t_cols b)) (length (t_cols v)))).
     + match goal with |- (if ?x then _ else _) = _ -> _ => destruct x end; [|discriminate].
       intros H. injection H as <-. exact Hv.
